@@ -133,4 +133,109 @@ theorem scaleAll_exact (minExp : BitVec 16) (des : List (I64 × BitVec 16)) (ds 
           subst hs
           simp [hz]
         · exact mulPow10Fast_exact d (e - minExp) d' hs
+
+/-! ### the repaired encoder's acceptance test (`decoded[i] != f`) -/
+
+def negZero : BitVec 64 := 0x8000000000000000#64
+def posZero : BitVec 64 := 0#64
+
+/-- `-0.0 ↦ +0.0`, every other bit pattern unchanged. -/
+def normZero (b : BitVec 64) : BitVec 64 := if b = negZero then posZero else b
+
+/-- what the repaired encoder guarantees about `decoded` vs `src`: same length, and pointwise the
+    same bits or two zeros (of either sign). -/
+def SameFloats : List (BitVec 64) → List (BitVec 64) → Prop
+  | [], [] => True
+  | y :: ys, x :: xs => (y = x ∨ (isZero64 x = true ∧ isZero64 y = true)) ∧ SameFloats ys xs
+  | _, _ => False
+
+/-- the directed form: bit exact except that `-0.0` is read back as `+0.0`. -/
+def ExactUpToNegZero : List (BitVec 64) → List (BitVec 64) → Prop
+  | [], [] => True
+  | y :: ys, x :: xs => (y = x ∨ (x = negZero ∧ y = posZero)) ∧ ExactUpToNegZero ys xs
+  | _, _ => False
+
+theorem fEq_spec (a b : BitVec 64) (h : fEq a b = true) :
+    C12.isNaN a = false ∧ C12.isNaN b = false ∧ (a = b ∨ (isZero64 b = true ∧ isZero64 a = true)) := by
+  unfold fEq at h
+  simp only [Bool.and_eq_true, Bool.not_eq_true', Bool.or_eq_true, beq_iff_eq] at h
+  obtain ⟨⟨ha, hb⟩, h3⟩ := h
+  refine ⟨ha, hb, ?_⟩
+  rcases h3 with h3 | h3
+  · exact Or.inl h3
+  · exact Or.inr ⟨h3.2, h3.1⟩
+
+theorem fEqList_same (ys xs : List (BitVec 64)) (h : fEqList ys xs = true) : SameFloats ys xs := by
+  induction ys generalizing xs with
+  | nil => cases xs <;> simp_all [fEqList, SameFloats]
+  | cons y ys ih =>
+    cases xs with
+    | nil => simp [fEqList] at h
+    | cons x xs =>
+      simp only [fEqList, Bool.and_eq_true] at h
+      exact ⟨(fEq_spec y x h.1).2.2, ih xs h.2⟩
+
+theorem SameFloats.length_eq {ys xs : List (BitVec 64)} (h : SameFloats ys xs) : ys.length = xs.length := by
+  induction ys generalizing xs with
+  | nil => cases xs <;> simp_all [SameFloats]
+  | cons y ys ih =>
+    cases xs with
+    | nil => simp [SameFloats] at h
+    | cons x xs => simp [ih h.2]
+
+theorem isZero64_normZero (b : BitVec 64) (h : isZero64 b = true) : normZero b = posZero := by
+  unfold isZero64 at h
+  simp only [Bool.or_eq_true, beq_iff_eq] at h
+  rcases h with rfl | rfl <;> decide
+
+theorem SameFloats.normZero_eq {ys xs : List (BitVec 64)} (h : SameFloats ys xs) :
+    ys.map normZero = xs.map normZero := by
+  induction ys generalizing xs with
+  | nil => cases xs <;> simp_all [SameFloats]
+  | cons y ys ih =>
+    cases xs with
+    | nil => simp [SameFloats] at h
+    | cons x xs =>
+      simp only [List.map_cons, ih h.2]
+      rcases h.1 with rfl | ⟨hx, hy⟩
+      · rfl
+      · rw [isZero64_normZero x hx, isZero64_normZero y hy]
+
+theorem SameFloats.directed {ys xs : List (BitVec 64)} (h : SameFloats ys xs) (hn : ∀ y ∈ ys, y ≠ negZero) :
+    ExactUpToNegZero ys xs := by
+  induction ys generalizing xs with
+  | nil => cases xs <;> simp_all [SameFloats, ExactUpToNegZero]
+  | cons y ys ih =>
+    cases xs with
+    | nil => simp [SameFloats] at h
+    | cons x xs =>
+      refine ⟨?_, ih h.2 (fun z hz => hn z (by simp [hz]))⟩
+      rcases h.1 with rfl | ⟨hx, hy⟩
+      · exact Or.inl rfl
+      · have hy' : y = posZero := by
+          unfold isZero64 at hy
+          simp only [Bool.or_eq_true, beq_iff_eq] at hy
+          rcases hy with rfl | rfl
+          · rfl
+          · exact absurd rfl (hn _ (List.mem_cons_self))
+        unfold isZero64 at hx
+        simp only [Bool.or_eq_true, beq_iff_eq] at hx
+        rcases hx with rfl | rfl
+        · exact Or.inl hy'
+        · exact Or.inr ⟨rfl, hy'⟩
+
+/-- what `Float64ListToDecimalIntList` (repaired) accepts decodes to the same floats. -/
+theorem float_accept_same (fd : FloatDec) (src : List (BitVec 64)) (ds : List I64) (e : BitVec 16)
+    (h : float64ListToDecimalIntList fd src = .ok (ds, e)) :
+    SameFloats (decimalIntListToFloat64List fd ds e) src := by
+  unfold float64ListToDecimalIntList at h
+  split at h
+  · split at h
+    · rename_i heq
+      simp only [Res.ok.injEq, Prod.mk.injEq] at h
+      rw [← h.1, ← h.2]; exact fEqList_same _ _ heq
+    · simp at h
+  · simp at h
+  · simp at h
+
 end Banyan.C11
